@@ -362,16 +362,18 @@ func c19FlushOrder(r *core.Report) {
 	okSort := false
 	why := "the send loop does not range over a slice sorted with a strict ascending comparator"
 	if rs != nil {
-		so := core.ObjOf(info, rs.X)
-		rn := g.NodeOf(rs.X.Pos())
-		for _, n := range stmtNodes(g) {
-			for _, si := range sortCalls(info, n.Ast) {
-				if si.SliceObj == so && si.Decided && si.Strict && si.Op == token.LSS && rn != nil && g.Dominates(n, rn) {
-					okSort = true
-				} else if si.SliceObj == so {
-					why = "positions are sorted with comparator " + si.Op.String() + " (want strict <)"
+		if c, isCall := core.Unparen(rs.X).(*ast.CallExpr); isCall {
+			// the list of positions comes from a helper: every list it returns is sorted strictly ascending
+			if fo := core.Callee(info, c); fo != nil {
+				if h := p.ByObj[fo.Origin()]; h != nil && h.Body != nil {
+					okSort, why = returnsOrdered(p, h, token.LSS, 0)
 				}
 			}
+		} else {
+			okSort, why = orderedSlice(p, f, core.ObjOf(info, rs.X), g.NodeOf(rs.X.Pos()), token.LSS, 0)
+		}
+		if !okSort {
+			why = "the send loop does not range over a slice sorted with a strict ascending comparator: " + why
 		}
 	}
 	r.Check(okSort, rule, f.Key+"#positions-ascending", pos(r, sendNode.Ast), "positions of a slot are sent in strictly ascending order", why)
